@@ -183,7 +183,8 @@ class _Continue(Exception):
 
 
 PY_ERRORS = (KeyError, IndexError, ZeroDivisionError, ValueError, OverflowError, TypeError, AttributeError)
-CONCRETE = (str, dict, list, set, tuple, int, float, complex, frozenset, bool, type(None), range)
+CONCRETE = (str, dict, list, set, tuple, int, float, complex, frozenset, bool, type(None), range,
+            type(_re.compile('')), type(_re.match('', '')))
 TYPES = {'complex': complex, 'float': float, 'int': int, 'str': str, 'list': list, 'dict': dict, 'set': set,
          'tuple': tuple, 'bool': bool, 'frozenset': frozenset, 'object': object}
 EXTERNAL_TYPES = {'numbers.Number': numbers.Number}
@@ -552,120 +553,150 @@ class Interp(object):
         raise Unsupported('module-level value %s is not modelled' % name)
 
     def eval(self, e, env, module):
-        self._tick()
-        if isinstance(e, ast.Constant):
-            return e.value
-        if isinstance(e, ast.Name):
-            found, v = env.lookup(e.id)
-            if found:
-                return v
-            return self.resolve_global(e.id, module)
-        if isinstance(e, ast.Attribute):
-            obj = self.eval(e.value, env, module)
-            return self.getattr(obj, e.attr, e)
-        if isinstance(e, ast.Call):
-            f = self.eval(e.func, env, module)
-            args = []
-            for a in e.args:
-                if isinstance(a, ast.Starred):
-                    args.extend(self.iterate(self.eval(a.value, env, module), a))
-                else:
-                    args.append(self.eval(a, env, module))
-            kwargs = {}
-            for k in e.keywords:
-                if k.arg is None:
-                    d = self.eval(k.value, env, module)
-                    if not isinstance(d, dict):
-                        raise Unsupported('** of %r' % (d,))
-                    kwargs.update(d)
-                else:
-                    kwargs[k.arg] = self.eval(k.value, env, module)
-            return self._call_value(f, args, kwargs, e)
-        if isinstance(e, ast.Subscript):
-            obj = self.eval(e.value, env, module)
-            if isinstance(e.slice, ast.Slice):
-                lo = self.eval(e.slice.lower, env, module) if e.slice.lower is not None else None
-                hi = self.eval(e.slice.upper, env, module) if e.slice.upper is not None else None
-                st = self.eval(e.slice.step, env, module) if e.slice.step is not None else None
-                key = slice(lo, hi, st)
+        self.steps += 1
+        if self.steps > self.max_steps:
+            raise Budget()
+        h = self._eval_table.get(e.__class__)
+        if h is None:
+            raise Unsupported('expression not supported: %s' % short(e))
+        return h(self, e, env, module)
+
+    def _e_const(self, e, env, module):
+        return e.value
+
+    def _e_name(self, e, env, module):
+        name = e.id
+        en = env
+        while en is not None:
+            if name in en.vars:
+                return en.vars[name]
+            en = en.parent
+        return self.resolve_global(name, module)
+
+    def _e_attr(self, e, env, module):
+        return self.getattr(self.eval(e.value, env, module), e.attr, e)
+
+    def _e_call(self, e, env, module):
+        f = self.eval(e.func, env, module)
+        args = []
+        for a in e.args:
+            if isinstance(a, ast.Starred):
+                args.extend(self.iterate(self.eval(a.value, env, module), a))
             else:
-                key = self.eval(e.slice, env, module)
-            if isinstance(obj, Sym):
-                return self.model.subscript(obj, key, e, self)
-            try:
-                return obj[key]
-            except PY_ERRORS as ex:
-                raise Raised(type(ex).__name__, [str(ex)], e)
-        if isinstance(e, ast.BinOp):
-            return self.binop(e.op, self.eval(e.left, env, module), self.eval(e.right, env, module), e)
-        if isinstance(e, ast.UnaryOp):
-            v = self.eval(e.operand, env, module)
-            if isinstance(e.op, ast.Not):
-                return not self.truth(v)
-            if isinstance(v, Sym):
-                raise Unsupported('unary operator on %r' % (v,))
-            try:
-                if isinstance(e.op, ast.USub):
-                    return -v
-                if isinstance(e.op, ast.UAdd):
-                    return +v
-                return ~v
-            except PY_ERRORS as ex:
-                raise Raised(type(ex).__name__, [str(ex)], e)
-        if isinstance(e, ast.BoolOp):
-            if isinstance(e.op, ast.And):
-                v = True
-                for x in e.values:
-                    v = self.eval(x, env, module)
-                    if not self.truth(v):
-                        return v
-                return v
-            v = False
+                args.append(self.eval(a, env, module))
+        kwargs = {}
+        for k in e.keywords:
+            if k.arg is None:
+                d = self.eval(k.value, env, module)
+                if not isinstance(d, dict):
+                    raise Unsupported('** of %r' % (d,))
+                kwargs.update(d)
+            else:
+                kwargs[k.arg] = self.eval(k.value, env, module)
+        return self._call_value(f, args, kwargs, e)
+
+    def _e_subscript(self, e, env, module):
+        obj = self.eval(e.value, env, module)
+        if isinstance(e.slice, ast.Slice):
+            lo = self.eval(e.slice.lower, env, module) if e.slice.lower is not None else None
+            hi = self.eval(e.slice.upper, env, module) if e.slice.upper is not None else None
+            st = self.eval(e.slice.step, env, module) if e.slice.step is not None else None
+            key = slice(lo, hi, st)
+        else:
+            key = self.eval(e.slice, env, module)
+        if isinstance(obj, Sym):
+            return self.model.subscript(obj, key, e, self)
+        try:
+            return obj[key]
+        except PY_ERRORS as ex:
+            raise Raised(type(ex).__name__, [str(ex)], e)
+
+    def _e_binop(self, e, env, module):
+        return self.binop(e.op, self.eval(e.left, env, module), self.eval(e.right, env, module), e)
+
+    def _e_unary(self, e, env, module):
+        v = self.eval(e.operand, env, module)
+        if isinstance(e.op, ast.Not):
+            return not self.truth(v)
+        if isinstance(v, Sym):
+            raise Unsupported('unary operator on %r' % (v,))
+        try:
+            if isinstance(e.op, ast.USub):
+                return -v
+            if isinstance(e.op, ast.UAdd):
+                return +v
+            return ~v
+        except PY_ERRORS as ex:
+            raise Raised(type(ex).__name__, [str(ex)], e)
+
+    def _e_boolop(self, e, env, module):
+        if isinstance(e.op, ast.And):
+            v = True
             for x in e.values:
                 v = self.eval(x, env, module)
-                if self.truth(v):
+                if not self.truth(v):
                     return v
             return v
-        if isinstance(e, ast.Compare):
-            left = self.eval(e.left, env, module)
-            for op, r in zip(e.ops, e.comparators):
-                right = self.eval(r, env, module)
-                if not self.truth(self.compare(op, left, right, e)):
-                    return False
-                left = right
-            return True
-        if isinstance(e, ast.IfExp):
-            return self.eval(e.body if self.truth(self.eval(e.test, env, module)) else e.orelse, env, module)
-        if isinstance(e, ast.Dict):
-            out = {}
-            for k, v in zip(e.keys, e.values):
-                if k is None:
-                    d = self.eval(v, env, module)
-                    if not isinstance(d, dict):
-                        raise Unsupported('** of %r' % (d,))
-                    out.update(d)
-                else:
-                    out[self.eval(k, env, module)] = self.eval(v, env, module)
-            return out
-        if isinstance(e, ast.List):
-            return [self.eval(x, env, module) for x in e.elts]
-        if isinstance(e, ast.Tuple):
-            return tuple(self.eval(x, env, module) for x in e.elts)
-        if isinstance(e, ast.Set):
-            return set(self.eval(x, env, module) for x in e.elts)
-        if isinstance(e, (ast.ListComp, ast.SetComp, ast.GeneratorExp, ast.DictComp)):
-            out = []
-            self._comp(e, 0, Env(env), module, out)
-            if isinstance(e, ast.SetComp):
-                return set(out)
-            if isinstance(e, ast.DictComp):
-                return dict(out)
-            return out
-        if isinstance(e, ast.Lambda):
-            return Closure(e, env, module)
-        if isinstance(e, ast.JoinedStr):
-            return Text(True, ())
-        raise Unsupported('expression not supported: %s' % short(e))
+        v = False
+        for x in e.values:
+            v = self.eval(x, env, module)
+            if self.truth(v):
+                return v
+        return v
+
+    def _e_compare(self, e, env, module):
+        left = self.eval(e.left, env, module)
+        for op, r in zip(e.ops, e.comparators):
+            right = self.eval(r, env, module)
+            if not self.truth(self.compare(op, left, right, e)):
+                return False
+            left = right
+        return True
+
+    def _e_ifexp(self, e, env, module):
+        return self.eval(e.body if self.truth(self.eval(e.test, env, module)) else e.orelse, env, module)
+
+    def _e_dict(self, e, env, module):
+        out = {}
+        for k, v in zip(e.keys, e.values):
+            if k is None:
+                d = self.eval(v, env, module)
+                if not isinstance(d, dict):
+                    raise Unsupported('** of %r' % (d,))
+                out.update(d)
+            else:
+                out[self.eval(k, env, module)] = self.eval(v, env, module)
+        return out
+
+    def _e_list(self, e, env, module):
+        return [self.eval(x, env, module) for x in e.elts]
+
+    def _e_tuple(self, e, env, module):
+        return tuple(self.eval(x, env, module) for x in e.elts)
+
+    def _e_set(self, e, env, module):
+        return set(self.eval(x, env, module) for x in e.elts)
+
+    def _e_comp(self, e, env, module):
+        out = []
+        self._comp(e, 0, Env(env), module, out)
+        if isinstance(e, ast.SetComp):
+            return set(out)
+        if isinstance(e, ast.DictComp):
+            return dict(out)
+        return out
+
+    def _e_lambda(self, e, env, module):
+        return Closure(e, env, module)
+
+    def _e_joined(self, e, env, module):
+        return Text(True, ())
+
+    _eval_table = {ast.Constant: _e_const, ast.Name: _e_name, ast.Attribute: _e_attr, ast.Call: _e_call,
+                   ast.Subscript: _e_subscript, ast.BinOp: _e_binop, ast.UnaryOp: _e_unary, ast.BoolOp: _e_boolop,
+                   ast.Compare: _e_compare, ast.IfExp: _e_ifexp, ast.Dict: _e_dict, ast.List: _e_list,
+                   ast.Tuple: _e_tuple, ast.Set: _e_set, ast.ListComp: _e_comp, ast.SetComp: _e_comp,
+                   ast.GeneratorExp: _e_comp, ast.DictComp: _e_comp, ast.Lambda: _e_lambda, ast.JoinedStr: _e_joined}
 
     def _comp(self, e, i, env, module, out):
         if i == len(e.generators):
@@ -722,10 +753,6 @@ class Interp(object):
                 raise Raised(type(ex).__name__, [str(ex)], node)
             return res if isinstance(op, ast.In) else not res
         if isinstance(left, Sym) or isinstance(right, Sym):
-            if isinstance(op, ast.Eq) and not (isinstance(left, Sym) and isinstance(right, Sym)):
-                return self.model.compare(op, left, right, node) if _model_overrides(self.model, 'compare') else False
-            if isinstance(op, ast.NotEq) and not (isinstance(left, Sym) and isinstance(right, Sym)):
-                return self.model.compare(op, left, right, node) if _model_overrides(self.model, 'compare') else True
             return self.model.compare(op, left, right, node)
         try:
             if isinstance(op, ast.Eq):
@@ -783,7 +810,7 @@ class Interp(object):
 
     def _wrap(self, v):
         """Make closures callable from Python builtins (sorted key=, map, ...)."""
-        if isinstance(v, (Closure, FuncRef, Native, BoundMethod)):
+        if isinstance(v, (Closure, FuncRef, Native, BoundMethod, Ext, _Builtin)):
             return lambda *a, **k: self._call_value(v, list(a), dict(k), None)
         return v
 
@@ -835,10 +862,6 @@ class Interp(object):
         if isinstance(f, ClassRef):
             return self.model.call(f, args, kwargs, node, self)
         raise Unsupported('call of %r (%s)' % (f, short(node) if node is not None else ''))
-
-
-def _model_overrides(model, name):
-    return getattr(type(model), name) is not getattr(Model, name)
 
 
 def _model_intercepts(model, f):
@@ -899,6 +922,8 @@ def _isinstance(interp, args, kwargs, node):
     for c in classes:
         if isinstance(c, Ext):
             c = EXTERNAL_TYPES.get(c.dotted, c)
+        if isinstance(c, _Builtin):
+            c = ISINSTANCE_TYPES.get(c.name, c)
         r = interp.model.isinstance_(v, c, interp)
         if r is None:
             if isinstance(c, type):
@@ -939,9 +964,10 @@ BUILTIN_FUNCS['sum'] = _Builtin('sum', _sum)
 BUILTIN_FUNCS['str'] = _Builtin('str', _str)
 for _n in ('int', 'float', 'complex', 'bool'):
     TYPES.pop(_n, None)        # called through BUILTIN_FUNCS; isinstance() sees the real types below
-ISINSTANCE_TYPES = {'int': int, 'float': float, 'complex': complex, 'bool': bool}
+ISINSTANCE_TYPES = {'int': int, 'float': float, 'complex': complex, 'bool': bool, 'str': str}
 
-EXT_FUNCS = {'re.sub': _re.sub, 're.escape': _re.escape, 'math.floor': __import__('math').floor,
+EXT_FUNCS = {'re.sub': _re.sub, 're.escape': _re.escape, 're.fullmatch': _re.fullmatch, 're.match': _re.match,
+             're.search': _re.search, 're.compile': _re.compile, 're.findall': _re.findall, 're.split': _re.split, 'math.floor': __import__('math').floor,
              'math.ceil': __import__('math').ceil}
 
 
